@@ -1,5 +1,8 @@
 //! verif - model-checking harness for exmex (see /verif/DESIGN.md)
 mod c01;
+mod c02;
+mod c03;
+mod strsweep;
 mod common;
 mod enumr;
 mod report;
@@ -31,6 +34,8 @@ fn main() {
             };
             let rc = match id {
                 "C01" => c01::run(tier),
+                "C02" => c02::run(tier),
+                "C03" => c03::run(tier),
                 _ => {
                     eprintln!("unknown property {id}");
                     2
@@ -45,6 +50,8 @@ fn main() {
             let case = &v["case"];
             let rc = match case["engine"].as_str().unwrap_or("") {
                 "tree-text" => treecheck::replay_text_case(case),
+                "diff-text" => c02::replay_diff_case(case),
+                "c03-extra" => c03::replay_extra(case),
                 e => {
                     eprintln!("unknown replay engine {e}");
                     2
